@@ -1,9 +1,10 @@
 SPECIFICATION Spec
 CONSTANTS
   N = 3
-  WithQueries = TRUE
+  WithQueries = FALSE
   WithMixed = TRUE
   HeavyLaws = FALSE
+  SlimGates = FALSE
   Mutant <- NoMutant
 VIEW View
 INVARIANT GroupInv
